@@ -108,7 +108,7 @@ def jobs(tier, seed, prop):
         R = X.Rules()
         t, info = emit(R, rule)
         src = ht + 'int tsg_exc;\n#define TSG_NP %d\n#define GETPARENT getParent_%s\n' % (npnt, rule) + HARNESS + t + TAIL
-        out.append(Job("dagup." + rule, src, "h_dagup", unwind=8, timeout=600, backends=[["--sat-solver", "cadical"], []],
+        out.append(Job("dagup." + rule, src, "h_dagup", unwind=2 * npnt + 3, timeout=600, backends=[["--sat-solver", "cadical"], []],
                        functions=["%s:%d %s" % (f["file"], f["line"], f["name"]) for f in info["functions"]], info=info, replay=replay(prop),
                        bounded="points <= %d, dimensions <= 2, 1-D indices < 16 (full unwinding with unwinding assertions)" % npnt,
                        assumed=["MultiIndexSet::getSlot as a search of the given set (its own contract: indexsets.getSlot); getParent is the extracted function of the hierarchy unit"],
